@@ -60,12 +60,12 @@ def check(ctx):
     ctx.ob("TOKFLOW.wrap.states-before-token", wf, "every path to the key token computed bitgen_token from this call's states", ok)
     # one state per block
     zl = [l for l in walk_no_nested(wf) if isinstance(l, ast.For) and isinstance(l.iter, ast.Call) and call_name(l.iter) == "zip" and "bitgens" in unparse(l.iter)]
-    ok = len(zl) == 1 and [unparse(a) for a in zl[0].iter.args] == ["keys", "bitgens", "sizes", "slices", "blocks"] and unparse(zl[0].target) == "(key, bitgen, size, slc, block)"
+    ok = len(zl) == 1 and [unparse(a) for a in zl[0].iter.args] == ["keys", "bitgens", "sizes", "slices", "blocks"] and eqv(zl[0].target, "(key, bitgen, size, slc, block)")
     ctx.ob("PAIR.one-state", wf, "for key, bitgen, size, slc, block in zip(keys, bitgens, sizes, slices, blocks)", ok)
     ok = bool(find("sizes = list(product(*chunks))", wf))
     ctx.ob("PAIR.one-state.count", wf, "number of states = number of blocks (len(sizes))", ok)
     # the task receives exactly that state
-    tasks = [c for c in calls(wf, "Task") if any(unparse(a) == "func_applier" for a in c.args)]
+    tasks = [c for c in calls(wf, "Task") if any(eqv(a, "func_applier") for a in c.args)]
     ok = len(tasks) == 1 and [unparse(a) for a in tasks[0].args[:6]] == ["key", "func_applier", "gen", "funcname", "bitgen", "size"] and len(tasks[0].args) == 8 and "arg" in unparse(tasks[0].args[6]) and "kwrg" in unparse(tasks[0].args[7]) + "kwrg"
     ctx.ob("PAIR.one-state.task", wf, "Task(key, func_applier, gen, funcname, bitgen, size, arg, kwargs)", ok, "" if ok else (unparse(tasks[0])[:80] if tasks else "no task"))
     # ---------------- choice
@@ -102,7 +102,7 @@ def check(ctx):
         ambient = [c for c in calls(f, None) if call_name(c) and (call_name(c).startswith("np.random.") or call_name(c).startswith("numpy.random.") or call_name(c).startswith("random.")) and call_name(c) not in ("np.random.SeedSequence", "np.random.default_rng", "np.random.RandomState", "np.random.Generator")]
         ctx.ob("EFFECT.per-chunk.no-ambient", f, f"{fn}: no module-level random draw", not ambient, f"{[unparse(a)[:40] for a in ambient]}")
         # the draw is made on the constructed generator
-        draws = [c for c in calls(f, None) if isinstance(c.func, ast.Name) and c.func.id == "func"] + [c for c in calls(f, None) if isinstance(c.func, ast.Attribute) and unparse(c.func.value) == "state"]
+        draws = [c for c in calls(f, None) if isinstance(c.func, ast.Name) and c.func.id == "func"] + [c for c in calls(f, None) if isinstance(c.func, ast.Attribute) and eqv(c.func.value, "state")]
         ctx.ob("EFFECT.per-chunk.draw", f, f"{fn}: draws from the constructed generator", bool(draws))
     # typestate: a generator object that is stored in the graph must never be drawn from.
     # _rng_from_bitgen wraps its argument WITHOUT copying (default_rng(bitgen) shares the bit generator's
@@ -113,7 +113,7 @@ def check(ctx):
             # not a block function: Generator.permutation calls it eagerly, at graph construction, on the
             # caller's own generator (advancing that generator is what drawing a permutation means)
             eager = [c for c in calls(gen.own_methods["permutation"], "_shuffle")]
-            in_graph = [c for c in calls(mod.tree, "Task") if any(unparse(a) == "_shuffle" for a in c.args)]
+            in_graph = [c for c in calls(mod.tree, "Task") if any(eqv(a, "_shuffle") for a in c.args)]
             ctx.ob("EFFECT.per-chunk.fresh-generator", mod.func(fn), "_shuffle is applied eagerly in Generator.permutation, never stored in a graph", bool(eager) and not in_graph)
             continue
         f = mod.func(fn)
@@ -126,7 +126,7 @@ def check(ctx):
                 # the un-rebuilt path is taken only for non-SeedSequence inputs; _wrap_func hands numpy
                 # generators over as seed sequences
                 conv = find("bitgens = [_bitgen._seed_seq for _bitgen in bitgens]", wf)
-                guard = any(isinstance(n_, ast.If) and unparse(n_.test) == "isinstance(bitgen, np.random.SeedSequence)" for n_ in walk_no_nested(f))
+                guard = any(isinstance(n_, ast.If) and eqv(n_.test, "isinstance(bitgen, np.random.SeedSequence)") for n_ in walk_no_nested(f))
                 only_gen = bool(conv) and {unparse(e) for e, pol in cfg_of(wf).facts(conv[0][0])} == {"isinstance(rng, Generator)"}
                 ok = bool(conv) and guard and has_fact(inline_facts(wf, conv[0][0]), "isinstance(rng, Generator)", True) is not None and only_gen
                 ctx.ob("EFFECT.per-chunk.fresh-generator", c, f"{fn}: blocks receive SeedSequences (converted in _wrap_func) and build their bit generator from them", ok, "" if ok else "bit generators are stored in the graph and drawn from directly")
@@ -157,13 +157,13 @@ def check(ctx):
             expected = [p for p in params if p not in ("size", "chunks")]
             rest = [p for p in expected[len(pos):]]
             ok = (
-                unparse(c.args[0]) == "self"
+                eqv(c.args[0], "self")
                 and fn == name
                 and pos == expected[: len(pos)]
                 and all(kws.get(p) == p for p in rest)
                 and kws.get("size") == "size"
                 and kws.get("chunks") == "chunks"
-                and any(k.arg is None and unparse(k.value) == "kwargs" for k in c.keywords)
+                and any(k.arg is None and eqv(k.value, "kwargs") for k in c.keywords)
             )
             ctx.ob("NAME.methods", f, f"{cls}.{name} = _wrap_func(self, {name!r}, {', '.join(expected)}, size=size, chunks=chunks, **kwargs)", ok, "" if ok else f"calls _wrap_func(self, {fn!r}, {pos}, {kws})")
     ctx.count("distribution_methods", n_m)
